@@ -206,6 +206,10 @@ func c01(c *Ctx) (*report.Result, error) {
 	} else {
 		res.Undec("O1.7", "proxy-id table obligations", "", "C05 rule set failed")
 	}
+	res.RuleDoc["O1.8"] = "a silent target constrains the acknowledgement: before a task batch is handed to a target shard, the receiver makes sure ackByTarget has an entry for that target (created, only if absent, with the id of the first task handed over, under ackMu) - the upstream ack is the minimum over the entries, so a target without an entry (no ack yet) would not hold it back"
+	if f := resolve(c, res, "O1.8", anchor{"proxy", "*proxyStreamReceiver", "recvReplicationMessages"}); f != nil {
+		checkSilentTargets(c, res, f, "O1.8")
+	}
 	res.RuleDoc["O1.6"] = "the watermark replayed to late-registering target shards is a watermark nobody can be behind: every receiver's lastWatermark is written only from watermark-only batches (under len(ReplicationTasks) == 0); the exclusive high watermark of a task batch is not replayed, because its tasks may still be waiting for their target"
 	checkReplayedWatermark(c, res, "O1.6")
 	res.RuleDoc["O1.4"] = "watermark-only batches are offered to every registered target stream of the target cluster and to every remote shard of that cluster (no filter that could starve a target of watermarks)"
@@ -888,5 +892,147 @@ func checkReplayedWatermark(c *Ctx, res *report.Result, rule string) {
 	}
 	if n < 2 {
 		res.Undec(rule, "writers of lastWatermark", "", fmt.Sprintf("%d stores found, 2 confirmed by hand (proxyStreamReceiver, intraProxyStreamReceiver)", n))
+	}
+}
+
+// checkSilentTargets: see O1.8.
+func checkSilentTargets(c *Ctx, res *report.Result, f *ssa.Function, rule string) {
+	isEntry := func(x ssa.Instruction) bool {
+		mu, ok := x.(*ssa.MapUpdate)
+		if !ok {
+			return false
+		}
+		_, fld, okf := flow.FieldLoadOf(mu.Map)
+		return okf && fld == "ackByTarget"
+	}
+	// the task-bearing hand-over: DeliverMessagesToShardOwner calls outside the watermark-only branch
+	var delivers []ssa.CallInstruction
+	for _, call := range flow.Calls(f) {
+		cc := call.Common()
+		if !cc.IsInvoke() || cc.Method.Name() != "DeliverMessagesToShardOwner" {
+			continue
+		}
+		inEmpty := false
+		for _, g := range flow.NormGuards(flow.Guards(call.Block())) {
+			if bo, isB := g.Cond.(*ssa.BinOp); isB && bo.Op == token.EQL && g.Side {
+				if k, isK := flow.ConstInt(bo.Y); isK && k == 0 {
+					if lc, isC := bo.X.(*ssa.Call); isC {
+						if bi, isBi := lc.Call.Value.(*ssa.Builtin); isBi && bi.Name() == "len" {
+							inEmpty = true
+						}
+					}
+				}
+			}
+		}
+		if !inEmpty {
+			delivers = append(delivers, call)
+		}
+	}
+	if len(delivers) == 0 {
+		res.Undec(rule, "recvReplicationMessages: task hand-over", fnPos(c.Prog, f), "no DeliverMessagesToShardOwner call outside the watermark-only branch")
+		return
+	}
+	var recv ssa.Instruction
+	for _, call := range flow.Calls(f) {
+		if call.Common().IsInvoke() && call.Common().Method.Name() == "Recv" {
+			recv = call
+		}
+	}
+	if recv == nil {
+		res.Undec(rule, "recvReplicationMessages: Recv", fnPos(c.Prog, f), "not found")
+		return
+	}
+	// rangedMap: for a range key `k` of `for k, v := range M`, the Range instruction and M
+	rangedMap := func(v ssa.Value) (*ssa.Range, ssa.Value) {
+		ex, ok := flow.Strip(flow.ResolveLoad(v)).(*ssa.Extract)
+		if !ok || ex.Index != 1 {
+			return nil, nil
+		}
+		nx, ok := ex.Tuple.(*ssa.Next)
+		if !ok {
+			return nil, nil
+		}
+		rg, ok := nx.Iter.(*ssa.Range)
+		if !ok {
+			return nil, nil
+		}
+		return rg, flow.ResolveLoad(rg.X)
+	}
+	var entries []*ssa.MapUpdate
+	for _, b := range f.Blocks {
+		for _, ins := range b.Instrs {
+			if isEntry(ins) {
+				entries = append(entries, ins.(*ssa.MapUpdate))
+			}
+		}
+	}
+	_ = recv
+	for _, d := range delivers {
+		dRange, dMap := rangedMap(d.Common().Args[0])
+		ensured := false
+		for _, e := range entries {
+			eRange, eMap := rangedMap(e.Key)
+			if eRange == nil || dRange == nil || eMap != dMap {
+				continue
+			}
+			if eRange == dRange {
+				// same loop: the entry's block must dominate the hand-over or lie under the absent test that does
+				for _, g := range flow.Guards(e.Block()) {
+					if gi, isI := g.Cond.(ssa.Instruction); isI && gi.Block().Dominates(d.Block()) {
+						ensured = true
+					}
+				}
+				if e.Block().Dominates(d.Block()) {
+					ensured = true
+				}
+			} else if eRange.Block().Dominates(d.Block()) {
+				// a loop over the same target set that completes before the hand-over loop starts
+				ensured = true
+			}
+		}
+		res.Check(ensured, rule, "recvReplicationMessages: a target is entered into ackByTarget before tasks are handed to it", instrPos(c.Prog, d), "an entry is ensured for every key of the target set the hand-over ranges over, before the hand-over", "tasks are handed to a target shard without making sure it has an entry in ackByTarget: the acknowledgement sent upstream is the minimum over the targets that have acknowledged at least once, so while this target is silent the source shard is acknowledged past tasks it has not confirmed")
+	}
+	// the entry: only if absent, under ackMu, valued with the first task handed over
+	for _, b := range f.Blocks {
+		for _, ins := range b.Instrs {
+			if !isEntry(ins) {
+				continue
+			}
+			mu := ins.(*ssa.MapUpdate)
+			pos := instrPos(c.Prog, mu)
+			res.Check(flow.HeldAt(f, mu, "ackMu", true), rule, "recvReplicationMessages: ackByTarget entry created under ackMu", pos, "ok", "ackByTarget is written without ackMu (sendAck reads and writes it concurrently)")
+			absent := false
+			for _, g := range flow.NormGuards(flow.Guards(b)) {
+				if ex, isEx := g.Cond.(*ssa.Extract); isEx && ex.Index == 1 && !g.Side {
+					if lk, isL := ex.Tuple.(*ssa.Lookup); isL {
+						if _, fld, okf := flow.FieldLoadOf(lk.X); okf && fld == "ackByTarget" && flow.SameValue(lk.Index, mu.Key) {
+							absent = true
+						}
+					}
+				}
+			}
+			res.Check(absent, rule, "recvReplicationMessages: ackByTarget entry created only when absent", pos, "if _, ok := ackByTarget[target]; !ok", "an existing entry (what the target has really confirmed) can be overwritten with a task id: the minimum could then rise above what that target confirmed")
+			p, _ := flow.FieldPath(mu.Value)
+			first := false
+			if ld, isLd := flow.Strip(mu.Value).(*ssa.UnOp); isLd {
+				v := ld.X
+				for i := 0; i < 6 && v != nil; i++ {
+					switch y := v.(type) {
+					case *ssa.FieldAddr:
+						v = y.X
+						continue
+					case *ssa.UnOp:
+						v = y.X
+						continue
+					case *ssa.IndexAddr:
+						if k, isK := flow.ConstInt(y.Index); isK && k == 0 {
+							first = true
+						}
+					}
+					break
+				}
+			}
+			res.Check(first && (strings.HasSuffix(p, "SourceTaskId") || strings.HasSuffix(p, "TaskId")), rule, "recvReplicationMessages: the entry is the id of the first task handed to that target", pos, p, "the initial entry is "+p+": it must not exceed the first task handed over (tasks[0]'s id), otherwise the silent target does not hold the acknowledgement back far enough")
+		}
 	}
 }
